@@ -387,6 +387,7 @@ func checkC13(c *Ctx, r *Report) {
 	r.rule("C13.R4.listener-not-leaked", 3, "a socket ListenAndServe opened is installed in the server or closed before any return")
 	listenerNotLeaked(c, r, "C13.R4.listener-not-leaked")
 	shutdownReleased(c, r, "C13.R2.shutdown-released")
+	shutdownUnbounded(c, r, "C13.R4.shutdown-unbounded")
 }
 
 func fnDisplay(f *ssa.Function) string {
